@@ -7,10 +7,10 @@ CONSTANTS
   CertRounds = {}
   QKinds = {"Prevote", "Precommit", "Next", "Cert"}
   MaxQ = 100
-  Repair = {}
+  Repair = {"certReload", "replayMoves", "noBackward"}
   Mode = "G"
   MaxOps = 1000000
-  Weaken = TRUE
+  Weaken = FALSE
 CONSTRAINT HighWater
 POSTCONDITION Accepted
 CHECK_DEADLOCK FALSE
